@@ -13,9 +13,7 @@ structure DSt where
   stages : List (Stage Nat) := []
   names : List String := []          -- stage names (only `remove` looks at them: first stage with that name)
   made : Nat := 0                    -- number of stages ever created (identity used by the stub callbacks)
-  runs : Nat := 0                    -- `_runs_count`, `_successful_runs`, `_failed_runs` of get_statistics()
-  okRuns : Nat := 0
-  badRuns : Nat := 0
+  stats : Stats := ⟨0, 0, 0⟩         -- `_runs_count`, `_successful_runs`, `_failed_runs` of get_statistics() (Model/CascadeHist.lean)
   obs : Option StageObs := none       -- `on_stage_complete` script
   nests : List Bool := []            -- per stage: does its processor re-enter run() on the same cascade (search-only op)
   cobs : Option CascObs := none      -- `on_cascade_complete` script
@@ -83,12 +81,13 @@ def doRun (st : DSt) (x0 : String) : DSt × String :=
     -- run it was started from
     let nestedN := (outer.1.log.filter fun e => match e with | .proc i _ => st.nests.getD i false | _ => false).length
     let innerR := resultO st.cfg st.obs st.stages 3
-    let oks := (if outer.1.success then 1 else 0) + (if innerR.1.success then nestedN else 0)
     let returned := match (resultC st.cfg st.obs st.cobs st.stages (natD x)).1 with | .ok _ => true | .raise => false
     let last' := match outer.1.final with
       | some v => if returned && outer.1.success then v else st.last
       | none => st.last
-    ({ st with runs := st.runs + 1 + nestedN, okRuns := st.okRuns + oks, badRuns := st.badRuns + (1 + nestedN - oks), last := last',
+    -- the model's counters: every nested run is a call of its own, counted before the run it was started from is
+    let calls : List (Call Nat) := List.replicate nestedN (Call.run st.cfg st.stages 3) ++ [Call.run st.cfg st.stages (natD x)]
+    ({ st with stats := calls.foldl statsStep st.stats, last := last',
                -- every nested run returns (and is recorded) before the run it was started from
                hist := pushSeq ((List.replicate nestedN innerR.1).foldl pushSeq st.hist) outer.1 },
      String.intercalate " | " (render outer (notes st.cfg st.obs st.stages (natD x)) ::
@@ -148,7 +147,7 @@ def step (st : DSt) (toks : List String) : DSt × String :=
   | ["prun", x] =>
     -- run_parallel: order-insensitive rendering (the code collects results in completion order of its worker threads)
     match runParallel st.stages (natD x) with
-    | none => ({ st with runs := st.runs + 1 }, "raise:ValueError")       -- an empty cascade cannot be forked; the run was counted
+    | none => ({ st with stats := statsStep st.stats (Call.prun st.stages (natD x)) }, "raise:ValueError")       -- an empty cascade cannot be forked; the run was counted
     | some r =>
       let sortS (l : List String) : List String := (l.toArray.qsort (· < ·)).toList
       let outs := match r.outputs with
@@ -157,8 +156,7 @@ def step (st : DSt) (toks : List String) : DSt × String :=
       let line := joinSp ["P", showBool r.success, outs, toString r.completed, toString r.total, "1",
         showList (sortS (r.results.map fun q => s!"{st.names.getD q.idx "?"}:{showStatus q.status}:{showRat q.factor}")),
         showList (sortS (r.log.map showEv))]
-      ({ st with runs := st.runs + 1, okRuns := st.okRuns + (if r.success then 1 else 0),
-                 badRuns := st.badRuns + (if r.success then 0 else 1), hist := pushPar st.hist r }, line)
+      ({ st with stats := statsStep st.stats (Call.prun st.stages (natD x)), hist := pushPar st.hist r }, line)
   | ["runs", n, x0] =>
     -- a batch of `n` calls of run() on the same signal; shown: how many, how many reported success
     let rec go (k : Nat) (st : DSt) (oks : Nat) : DSt × Nat :=
@@ -180,7 +178,7 @@ def step (st : DSt) (toks : List String) : DSt × String :=
     let g := mkStage st.made cp (if kind = "ok" || kind = "sig" then "ok" else "raise") "none" true (ratOf amp)
     ({ st with stages := st.stages ++ [agentStage g.checkpoint g.processor (ratOf amp)],
                names := st.names ++ [name], made := st.made + 1, nests := st.nests ++ [false] }, "ok")
-  | ["stats"] => (st, s!"{st.stages.length} {st.runs} {st.okRuns} {st.badRuns} {showList st.names}")
+  | ["stats"] => (st, s!"{st.stages.length} {st.stats.runs} {st.stats.ok} {st.stats.bad} {showList st.names}")
   | _ => (st, "bad-op")
 
 def main : IO Unit := runDriver ({} : DSt) step
